@@ -44,6 +44,14 @@ RDATA = {
     # the older SIG type also carries a covered type (two SIG rdatasets at one owner are told apart by it)
     "SIG:A": ["A 8 2 300 20300101000000 20200101000000 12345 @ c2ln"],
     "SIG:MX": ["MX 8 2 300 20300101000000 20200101000000 12345 @ c2ln"],
+    # the other types with a special standing next to a CNAME: KEY and NSEC3 are "neutral" (may coexist with a
+    # CNAME and with anything else), DNSKEY is an ordinary type (displaced by / displaces a CNAME); same for
+    # the signatures covering them
+    "KEY": ["256 3 8 AQID", "257 3 8 BAUG"],
+    "DNSKEY": ["256 3 8 AQID", "257 3 8 BAUG"],
+    "NSEC3": ["1 0 10 ABCD 2T7B4G4VSA5SMI47K61MV5BV1A22BOJR A RRSIG", "1 1 5 - 2T7B4G4VSA5SMI47K61MV5BV1A22BOJR"],
+    "RRSIG:KEY": ["KEY 8 2 300 20300101000000 20200101000000 12345 @ c2ln"],
+    "RRSIG:DNSKEY": ["DNSKEY 8 2 300 20300101000000 20200101000000 12345 @ c2ln"],
 }
 TYPES = list(RDATA)
 TTLS = [0, 1, 300, 300, 3600, 2**31 - 1, 2**32 - 1]
@@ -311,36 +319,39 @@ def apply_real(b, txn, op):
         t = op["t"]
         rdclass = op.get("cls", b.rdclass)
         f = op["f"]
+        # (a surplus trailing argument, e.g. a second rdata: documented to be refused)
+        extra = (b.rdata(t, op["rd"][-1], rdclass),) if op.get("extra") else ()
         if f == "rrset":
             rds = b.rdataset(t, op["ttl"], op["rd"], rdclass)
             rrset = dns.rrset.from_rdata_list(b.name_obj(op["n"], op["nf"]), op["ttl"], list(rds))
             if len(b.handed_in) < 200:
                 b.handed_in.append(rrset)
-            return fn(rrset)
+            return fn(rrset, *extra)
         name = b.name_arg(op["n"], op["nf"])
         if f == "rdataset":
-            return fn(name, b.rdataset(t, op["ttl"], op["rd"], rdclass))
-        return fn(name, op["ttl"], b.rdata(t, op["rd"][0], rdclass))
+            return fn(name, b.rdataset(t, op["ttl"], op["rd"], rdclass), *extra)
+        return fn(name, op["ttl"], b.rdata(t, op["rd"][0], rdclass), *extra)
     if o == "delete":
         fn = txn.delete_exact if op.get("exact") else txn.delete
         f = op["f"]
+        extra = (1,) if op.get("extra") and f != "name" else ()
         if f == "rrset":
             rds = b.rdataset(op["t"], 0, op["rd"])
             rrset = dns.rrset.from_rdata_list(b.name_obj(op["n"], op["nf"]), 0, list(rds))
-            return fn(rrset)
+            return fn(rrset, *extra)
         name = b.name_arg(op["n"], op["nf"])
         if f == "name":
             return fn(name)
         if f == "type":
             rdtype, covers = split_type(op["t"])
-            if covers != dns.rdatatype.NONE:
-                return fn(name, rdtype, covers)
+            if covers != dns.rdatatype.NONE or extra:
+                return fn(name, rdtype, covers, *extra)
             if op.get("tstr"):
                 return fn(name, dns.rdatatype.to_text(rdtype))
             return fn(name, rdtype)
         if f == "rdataset":
-            return fn(name, b.rdataset(op["t"], op.get("ttl", 0), op["rd"]))
-        return fn(name, b.rdata(op["t"], op["rd"][0]))
+            return fn(name, b.rdataset(op["t"], op.get("ttl", 0), op["rd"]), *extra)
+        return fn(name, b.rdata(op["t"], op["rd"][0]), *extra)
     if o == "serial":
         kw = {}
         if "n" in op:
@@ -377,11 +388,15 @@ def apply_model(b, m, op):
         if int(rdtype) == refzone.SOA and name != b.origin:
             # also for unusable names: the SOA rule is checked on the owner as given
             raise ModelError("ValueError")
+        if op.get("extra"):
+            raise ModelError("TypeError")  # surplus arguments are refused, nothing is stored
         if name is None:
             raise ModelError("KeyError")
         rids = [b.rid_of(op["t"], x) for x in op["rd"]]
         return m.add(name, int(rdtype), int(covers), op["ttl"], rids, replace=(o == "replace"))
     if o == "delete":
+        if op.get("extra") and op["f"] != "name":
+            raise ModelError("TypeError")
         if name is None:
             raise ModelError("KeyError")
         exact = bool(op.get("exact"))
@@ -442,6 +457,8 @@ def gen_put(rng, o=None, names=None, types=None, allow_bad=True):
             op["rd"] = ['"t1"']
         elif r < 0.04 and f == "rdata":
             op["ttl"] = 2**32
+        elif r < 0.08:
+            op["extra"] = True
     return op
 
 
@@ -457,6 +474,8 @@ def gen_delete(rng, names=None, types=None, allow_bad=True):
         else:
             k = 1 if f == "rdata" else rng.choice([1, 1, 2, 3])
             op["rd"] = list(dict.fromkeys(rng.choice(RDATA[t]) for _ in range(k)))
+        if allow_bad and rng.random() < 0.03:
+            op["extra"] = True
     return op
 
 
